@@ -35,6 +35,11 @@ Definition writefile_ops (chunks : list bytes) : list op :=
 Definition store_ops_nofsync (chunks : list bytes) : list op :=
   [OOpen 0 tmp true true false] ++ writes 0 chunks ++ [OClose 0; ORename tmp tgt].
 
+(* updating the file in place (no truncation, positional write, fsync): what an "optimised" save
+   of a session of unchanged size would do *)
+Definition inplace_ops (data : bytes) : list op :=
+  [OOpen 0 tgt false false false; OWriteAt 0 0 data; OFsync 0; OClose 0].
+
 (* ---- what Loader.Load / FileStorage.LoadSession make of a file ---- *)
 Inductive load_res (S : Type) := LNotFound | LErr | LOk (s : S).
 Arguments LNotFound {S}.
